@@ -578,6 +578,15 @@ def rule_lookahead(ctx, prop):
                 oth = [bb for v, bb in inner["targets"].items() if v != "MethodCall"] + [inner["otherwise"]]
                 if not any("N" in answers(bb) for bb in oth if bb is not None):
                     problems.append(("Call::AnonymousCall", "never answered None"))
+        # the answer None may only be given after the next suffix was looked at: the peek() that feeds the match dominates
+        # every None answer (no other condition - layout, width - may short-circuit the question)
+        peeks = [b for b, t in f.calls() if callee(t).endswith("::peek") and sb in f.reach_from(b, avoid=merge) and f.dominates(b, sb)]
+        if peeks:
+            pk = max(peeks, key=lambda b: len(f.dominators().get(b, ())))
+            for x in non:
+                if not f.dominates(pk, x):
+                    problems.append(("suffix", "answered None without looking at it (another condition decides first)"))
+                    break
         rep.inst(f"{f.key} look-ahead table: Index(*) | MethodCall -> Obscure, else None", None, cfg, ok=not problems)
         for what, why in problems:
             rep.violation(f"{f.key} next-suffix-lookahead {what} {why.replace(' ', '-')}",
